@@ -440,6 +440,30 @@ func runC06(c *fw.Ctx) {
 		c06Check(c, env, fmt.Sprintf("deep-%d", n), deep)
 		c.Count("large_values", 3)
 	}
+	// (e3) long strings, and values that were printed in the other (plain, non-readable) mode just before: what PRINT
+	// writes for a value depends on the value alone, not on what the printer did earlier
+	rl := c.Rand("long-strings")
+	for i := 0; i < c.PerShard(c.Pick(1600, 40000)); i++ {
+		n := []int{40, 300, 511, 512, 513, 700, 1500, 5000}[rl.Intn(8)]
+		var sb strings.Builder
+		for sb.Len() < n {
+			sb.WriteString(gen.Pick(rl, []string{"abc def ", "q\"uote ", "back\\slash ", "line\nbreak ", "tab\t", "{\"json\": 1} ", "¬raw¬ ", "semi; ", "é中 "}))
+		}
+		v := canon.Node{K: canon.Str, S: stripMarkerStart(sb.String())}
+		var val *canon.Node = &v
+		if rl.Intn(3) == 0 {
+			val = canon.Ve(canon.In(1), &v, canon.Ma(map[string]*canon.Node{canon.Marker + "k": &v}))
+		}
+		g := canon.ToGo(val)
+		// plain-mode printing first: (str v), (println-less) printer in non-readable mode through the public builtins
+		fw.Guard(func() {
+			q := types.List{Val: []types.MalType{types.Symbol{Val: "quote"}, g}}
+			lisp.EVAL(context.Background(), types.List{Val: []types.MalType{types.Symbol{Val: "str"}, q}}, env)
+			lisp.EVAL(context.Background(), types.List{Val: []types.MalType{types.Symbol{Val: "str"}, "log: ", q, q}}, env)
+		})
+		c06Check(c, env, fmt.Sprintf("long-after-plain-%d", i), val)
+		c.Count("long_strings_after_plain_printing", 1)
+	}
 	// (f) accepted texts
 	rt := c.Rand("texts")
 	for i := 0; i < c.PerShard(c.Pick(1500000, 30000000)); i++ {
